@@ -203,6 +203,10 @@ type ChunkWriter struct {
 
 // WriteChunk is called with chunked ServiceInfos.
 func (w *ChunkWriter) WriteChunk(kv *KV) error {
+	if kv == nil {
+		return fmt.Errorf("service info entry must not be null")
+	}
+
 	// If the key hasn't changed, keep streaming data
 	if kv.Key == w.prevKey && w.w != nil {
 		_, err := w.w.Write(kv.Val)
